@@ -4,7 +4,10 @@ Model: lean/GscribModel/Model/Writers.lean (driver mode `writers`); theorems: Pr
 Implementation: a real `GCodeBuilder` with real `FileWriter`s over path-based files (temporary
 directory outside /repo and /verif, removed afterwards), `io.BytesIO`, `io.StringIO(newline='')`,
 buffered stream doubles (a user-supplied file object with its own buffer, with or without
-`isatty()`), `ConsoleWriter`s over a replaced `sys.stdout`, and recording `BaseWriter`s.
+`isatty()`), caller-opened real files on disk handed over as file objects (`open(p, "wb")` and
+`open(p, "w", encoding="utf-8", newline="")`; their content is always read back from the path through
+an independent handle, never through the object the writer holds), `ConsoleWriter`s over a replaced
+`sys.stdout`, and recording `BaseWriter`s.
 
 A case is a history of add_writer / remove_writer / write-producing builder calls / flush /
 teardown / owner-side `writer.disconnect()`.  The lines the builder formats are captured by a
@@ -36,13 +39,17 @@ KINDS = {
     "stringio": "t",  # FileWriter(io.StringIO(newline=''))
     "bufbin": "b",  # FileWriter(<buffered binary stream double>)
     "buftext": "t",  # FileWriter(<buffered text stream double>)
+    "filebin": "b",  # FileWriter(open("<tmp>/x.gcode", "wb")): io.BufferedWriter over a real file, opened by the caller
+    "filetext": "t",  # FileWriter(open("<tmp>/x.gcode", "w", encoding="utf-8", newline="")): io.TextIOWrapper over the same
     "ttybin": "b!",  # the same, isatty() -> True
     "ttytext": "t!",
     "console": "b!",  # ConsoleWriter() while sys.stdout has a .buffer
     "consoletext": "t!",  # ConsoleWriter() while sys.stdout has no .buffer
     "rec": "c",  # recording BaseWriter
 }
-DISK = {"path"}
+DISK = {"path", "filebin", "filetext"}  # observed by reading the path through an independent handle
+REALFILE = ("filebin", "filetext")  # caller-opened file objects over a real file
+USER_BUFFERED = ("bufbin", "buftext") + REALFILE  # user-supplied objects with their own buffer, no tty
 LINE_ENDINGS = ["os", "\\n", "\\r\\n", "\\r", "\n", "\r\n"]
 
 
@@ -146,6 +153,14 @@ class Slot:
         elif kind == "stringio":
             self.handle = io.StringIO(newline="")
             self.writer = FileWriter(self.handle)
+        elif kind in REALFILE:
+            self.path = os.path.join(tmp, f"{tag}_{idx}", "out.gcode")
+            os.makedirs(os.path.dirname(self.path), exist_ok=True)  # the caller opens (creates / truncates) the file itself
+            if kind == "filebin":
+                self.handle = open(self.path, "wb")
+            else:
+                self.handle = open(self.path, "w", encoding="utf-8", newline="")
+            self.writer = FileWriter(self.handle)
         elif kind in ("bufbin", "ttybin"):
             self.handle = BufBin(kind == "ttybin")
             self.writer = FileWriter(self.handle)
@@ -172,13 +187,15 @@ class Slot:
 
     # -- observation ---------------------------------------------------------------------
     def is_text(self):
-        return self.letter.startswith("t")
+        """the observation is a str (a real text-mode file is observed as the bytes on disk)"""
+        return self.letter.startswith("t") and self.kind not in DISK
 
     def given(self):
         """Everything the underlying object has been given (bytes, or str for a text stream); for a
-        path-based file: what is on disk now."""
+        path-based file and for a caller-opened real file: the bytes on disk now, read through an
+        independent handle (what the object holds in its own buffers cannot be seen from outside)."""
         k = self.kind
-        if k == "path":
+        if k in DISK:
             try:
                 with open(self.path, "rb") as f:
                     return f.read()
@@ -192,7 +209,7 @@ class Slot:
 
     def visible(self):
         """What a reader of the output sees now."""
-        if self.kind in ("path", "bytesio", "stringio", "rec"):
+        if self.kind in DISK or self.kind in ("bytesio", "stringio", "rec"):
             return self.given()
         return self.handle.visible
 
@@ -217,7 +234,7 @@ class Slot:
                 d = "?"
             else:
                 c = "1" if self.handle.closed else "0"
-                d = "?" if self.kind in ("bytesio", "stringio") else ("1" if self.handle.pending else "0")
+                d = "?" if self.kind in ("bytesio", "stringio") + REALFILE else ("1" if self.handle.pending else "0")
         g = self.given()
         if self.is_text():
             b, t = "", ",".join(format(ord(ch), "x") for ch in g)
@@ -227,6 +244,8 @@ class Slot:
 
     def cleanup(self):
         if self.path:
+            if self.kind in REALFILE and not self.handle.closed:
+                self.handle.close()
             shutil.rmtree(os.path.dirname(self.path), ignore_errors=True)
         elif self.kind in ("bytesio", "stringio"):
             self.handle.close()
@@ -318,6 +337,7 @@ class Outcome:
         self.lines_to_real = 0
         self.kinds_used = set()
         self.errors = []
+        self.notes = []  # distribution counters: which file-content checks ran / were left to the owner
 
 
 def _quiet():
@@ -392,6 +412,12 @@ def run_history(case, tmp, tag="h", observe_every=True):
                 got = as_bytes(s, s.given())
                 if got != expected[s.idx]:
                     problem("delivery", step, f"writer {s.idx} ({s.kind}) was given {got!r}, lines written while registered are {expected[s.idx]!r}")
+            if s.kind in REALFILE:
+                # what the caller's handle still holds cannot be seen; what has reached the disk must at every
+                # moment be a beginning of the lines written while registered (nothing else, nothing out of order)
+                got = s.visible()
+                if not expected[s.idx].startswith(got):
+                    problem("delivery", step, f"the file of writer {s.idx} ({s.kind}), read back from disk, holds {got!r}: not a beginning of the lines written while registered {expected[s.idx]!r}")
             if s.kind == "rec" and s.handle.chunks != exp_chunks[s.idx]:
                 problem("same-bytes", step, f"recorder {s.idx} received {s.handle.chunks!r}, expected the byte strings {exp_chunks[s.idx]!r}")
 
@@ -399,10 +425,12 @@ def run_history(case, tmp, tag="h", observe_every=True):
         for i in ids:
             s = slots[i]
             got = as_bytes(s, s.visible())
-            if s.kind in ("bufbin", "buftext") and why == "flush" and s.writer._file is None:
-                continue  # a detached user stream is its owner's business (see assumptions)
-            if s.kind in ("bufbin", "buftext") and why == "teardown":
-                continue
+            if s.kind in USER_BUFFERED and why == "teardown":
+                out.notes.append(f"content-after-teardown:{s.kind}" + (":some" if expected[i] else ":empty"))
+            if s.kind in USER_BUFFERED and why == "flush" and s.writer._file is None:
+                out.notes.append(f"content-after-flush-while-detached:{s.kind}" + (":some" if expected[i] else ":empty"))
+            if s.kind in USER_BUFFERED:
+                out.notes.append(f"content-after-flush:{s.kind}" + (":some" if expected[i] else ":empty"))
             if got != expected[i]:
                 problem("file-content", step, f"after {why}() output {i} ({s.kind}) contains {got!r}, the lines written so far are {expected[i]!r}")
 
@@ -545,6 +573,8 @@ def run_history(case, tmp, tag="h", observe_every=True):
             if s.kind not in ("path", "rec", "bytesio", "stringio"):
                 s.handle.close()
         for s in slots:
+            if s.kind in REALFILE:
+                out.notes.append(f"content-after-owner-close:{s.kind}" + (":some" if expected[s.idx] else ":empty"))
             got = as_bytes(s, s.visible())
             if got != expected[s.idx]:
                 problem("file-content", final_step + 1, f"after closing, output {s.idx} ({s.kind}) contains {got!r}, its session's lines are {expected[s.idx]!r}")
@@ -580,18 +610,24 @@ def compare(impl, model, kinds):
             continue
         a = impl[i]
         disk = i < len(kinds) and kinds[i] in DISK
+        mB = m["B"]
+        if disk and kinds[i] == "filetext":
+            # the model holds the str the text layer was given; on disk it is that text's UTF-8 encoding
+            if m["B"] != "":
+                return f"writer {i}: the model of a text stream holds bytes {m['B']}"
+            mB = "".join(chr(int(x, 16)) for x in m["T"].split(",") if x).encode("utf-8").hex()
         for key in ("o", "d", "c", "k", "T", "R"):
-            if a[key] == "?":
+            if a[key] == "?" or (key == "T" and disk and kinds[i] == "filetext"):
                 continue
             if key == "R" and m["R"].startswith("#"):
                 continue
             if a[key] != m[key]:
                 return f"writer {i} field {key}: impl={a[key]} model={m[key]}"
         if disk and m["d"] == "1":
-            if not m["B"].startswith(a["B"]):
-                return f"writer {i}: disk content {a['B']} is not a prefix of the model's data {m['B']}"
-        elif a["B"] != m["B"]:
-            return f"writer {i} field B: impl={a['B']} model={m['B']}"
+            if not mB.startswith(a["B"]):
+                return f"writer {i}: disk content {a['B']} is not a prefix of the model's data {mB}"
+        elif a["B"] != mB:
+            return f"writer {i} field B: impl={a['B']} model={mB}"
     return None
 
 
@@ -617,6 +653,8 @@ def judge(R, case, out, model_text, label, last_only=False):
         R.count("op:" + op[0] + (":" + op[1] if op[0] == "emit" else ""))
     for e in out.errors:
         R.count("emit-raised:" + e)
+    for note in out.notes:
+        R.count(note)
     if model_text is not None:
         texts = model_text.split(" ; ")
         if last_only:
@@ -659,6 +697,16 @@ def run_batch(R, cases, tmp, label, last_only=False, procs=1):
         judge(R, case, o, mo, label, last_only)
 
 
+def exhaustive_realfile_cases(maxlen):
+    """All histories <= maxlen over two caller-opened real files handed over as file objects (0: text mode,
+    1: binary mode; the tap is a third writer) and add 0 / add 1 / remove 0 / owner disconnect 0 / one
+    write-producing call / flush / teardown."""
+    alphabet = [["add", 0], ["add", 1], ["remove", 0], ["disc", 0], ["emit", "comment", "é✓"], ["flush"], ["teardown"]]
+    for L in range(maxlen + 1):
+        for combo in itertools.product(alphabet, repeat=L):
+            yield {"le": "\\r\\n", "kinds": ["filetext", "filebin"], "ops": list(combo)}
+
+
 def exhaustive_cases(maxlen):
     """All histories <= maxlen over three writers (path file, text stream, recorder; the tap is a fourth,
     always registered) and the operations add/remove of each, one write-producing call, flush, teardown."""
@@ -674,20 +722,25 @@ CORPUS = [
     {"le": "\\n", "kinds": ["path"], "ops": [["add", 0], ["emit", "raw", "G1 X10 Y10"], ["disc", 0], ["emit", "raw", "G1 X20 Y20"], ["flush"]]},
     {"le": "\\r\\n", "kinds": ["path", "stringio", "rec"], "ops": [["add", 0], ["add", 1], ["add", 1], ["add", 2], ["emit", "comment", "héllo ✓"], ["remove", 1], ["emit", "move", 3], ["flush"], ["teardown"], ["add", 0], ["emit", "comment", "€"]]},
     {"le": "os", "kinds": ["console", "consoletext", "ttybin", "bufbin"], "ops": [["add", 3], ["add", 0], ["add", 1], ["add", 2], ["emit", "comment", "\U0001f600"], ["flush"], ["emit", "tool_on", None], ["teardown"], ["add", 3], ["flush"]]},
+    # caller-opened real files (text and binary mode) next to a path-based one: flush() must make every line written so far
+    # readable from the path through another handle, also a second time, when idle, and after a detach / re-attach
+    {"le": "\\n", "kinds": ["filetext", "filebin", "path"], "ops": [["add", 0], ["add", 1], ["add", 2], ["emit", "raw", "G21"], ["emit", "comment", "pièce n° 1 – ünïcödé ✓"], ["emit", "move", 1], ["flush"], ["emit", "comment", "日本語 コメント"], ["emit", "raw", "M400"], ["flush"], ["flush"], ["disc", 0], ["emit", "move", 2], ["flush"], ["teardown"], ["add", 0], ["add", 1], ["emit", "comment", "fin"], ["flush"]]},
+    {"le": "\\r\\n", "kinds": ["filebin", "filetext"], "ops": [["add", 1], ["emit", "comment", "€ \U0001f600"], ["remove", 1], ["add", 0], ["emit", "tool_on", None], ["flush"], ["add", 1], ["emit", "rapid", 3], ["flush"], ["teardown"], ["add", 1], ["flush"]]},
     {"le": "\n", "kinds": ["bytesio", "buftext"], "ops": [["add", 0], ["add", 1], ["emit", "comment", "bad \ud800 surrogate"], ["emit", "nan", None], ["bump"], ["emit", "dist", "relative"], ["remove", 0], ["emit", "tool_off", None], ["flush"]]},
 ]
 
 
 def run(R: core.Run):
     R.rule = ("histories of add_writer/remove_writer/write-producing builder calls/flush/teardown/owner disconnect over 1-4 "
-              "writers of 10 kinds and 6 line-ending settings; non-trivial = at least one line delivered to a non-tap writer "
+              "writers of 12 kinds (incl. caller-opened text- and binary-mode real files read back from disk) and 6 line-ending settings; non-trivial = at least one line delivered to a non-tap writer "
               "and >= 3 operation kinds; distinct by hash")
     R.assumptions = [
         "OS / io.Buffered* buffering is not modelled beyond the `dirty` flag: disk content is compared exactly when the model says "
         "nothing is unflushed, as a prefix otherwise",
-        "a user-supplied file object with its own buffer is flushed/closed by its owner: teardown() only detaches it "
-        "(FileWriter.disconnect closes only files it opened), so for such objects the file-content clause is checked after flush() "
-        "while connected and after the owner's close()",
+        "FileWriter.flush() calls flush() on whatever file object it is connected to, its own or the caller's, and disconnect() "
+        "(hence teardown() and remove-by-owner) flushes a caller's object before detaching it: for the stream doubles and for "
+        "caller-opened real files (open(p, 'wb'), open(p, 'w', encoding='utf-8', newline='')) the content after flush() and after "
+        "teardown() is what an independent reader sees (the double's visible part / the path read through a new handle), compared exactly",
         "text streams are UTF-8 / str-based (StringIO, stream doubles); a text stream with another encoding is out of scope",
     ]
     tmp = tempfile.mkdtemp(prefix="gscrib_c14_")
@@ -710,6 +763,14 @@ def run(R: core.Run):
             ex = list(exhaustive_cases(3))
             run_batch(R, ex, tmp, "exhaustive<=3", last_only=True)
             R.extra["exhaustive_subrun"] = {"cases": len(ex), "exhaustive": True, "scope": "all histories of length <= 3 (same alphabet as the thorough tier)"}
+        depth = 5 if R.thorough else 3  # a length, not a sample size: never scaled by R.n (VERIF_SCALE / the 3x boost)
+        exr = list(exhaustive_realfile_cases(depth))
+        run_batch(R, exr, tmp, f"exhaustive-realfiles<={depth}", last_only=True, procs=8)
+        R.extra["exhaustive_subrun_realfiles"] = {
+            "cases": len(exr), "exhaustive": True,
+            "scope": f"all histories of length <= {depth} over a caller-opened text-mode and a binary-mode real file: add of each, remove / "
+                     "owner disconnect of the text one, one write-producing call (non-ASCII comment, CRLF), flush, teardown; final state "
+                     "compared, content read back from disk (every prefix is itself a case)"}
         if R.broken:
             R.search_batches += 1
             for j in range(R.n(1500, 6000)):
